@@ -261,4 +261,14 @@ def do_selftest(prop, args):
 
 
 if __name__ == '__main__':
-    sys.exit(main())
+    try:
+        rc = main()
+    except SystemExit:
+        raise
+    except BaseException:
+        # an error of the machinery itself is never an alarm (exit 1 is reserved for replayed violations)
+        import traceback
+        traceback.print_exc()
+        print("HARNESS ERROR: inconclusive", file=sys.stderr)
+        rc = 2
+    sys.exit(rc)
